@@ -11,7 +11,7 @@ from checks import common as C
 
 RULE = ('cases = pairs / triples of valid Clifford maps with arbitrary signs; exhaustive: all 24^2 pairs and 24^3 triples for N=1, every one '
         'of the 11520 N=2 maps composed left and right with a generating set {H_q,S_q,CNOT both ways, 4 sign flips} and inverted (quick: '
-        'every 12th map); random triples N<=6; kernel: z2inv on invertible and singular GF(2) matrices; non-trivial = the two maps do not '
+        'every 13th map); random triples N<=6; kernel: z2inv on invertible and singular GF(2) matrices; non-trivial = the two maps do not '
         'commute and each carries a negative sign (sweeps: composite differs from both operands); distinct = sha1 of the case')
 ASSUMPTIONS = ['operands are valid Clifford maps (constructed in the reference model)']
 
@@ -206,12 +206,12 @@ def st_z2(be):
 
 FACETS = [
     Facet('np/N1-pairs-triples', f_n1, kind='enum', cases=enum_n1('np'), exhaustive=lambda t: True, shards={'quick': 2, 'thorough': 2}),
-    Facet('np/N2-group-x-generators', f_n2, kind='enum', cases=enum_n2('np', 12), exhaustive=lambda t: t == 'thorough',
+    Facet('np/N2-group-x-generators', f_n2, kind='enum', cases=enum_n2('np', 13), exhaustive=lambda t: t == 'thorough',
           shards={'quick': 4, 'thorough': 16}, budget={'quick': 150, 'thorough': 3000}),
     Facet('np/random-triples', f_triple, strategy=lambda t: st_triple('np', 6), examples={'quick': 1500, 'thorough': 60000}, shards={'quick': 2, 'thorough': 8}),
     Facet('np/z2inv', f_z2inv, strategy=lambda t: st_z2('np'), examples={'quick': 1500, 'thorough': 60000}, shards={'quick': 1, 'thorough': 4}),
     Facet('torch/N1-pairs-triples', f_n1, kind='enum', cases=enum_n1('torch'), exhaustive=lambda t: True, shards={'quick': 4, 'thorough': 4}, backend='torch'),
-    Facet('torch/N2-group-x-generators', f_n2, kind='enum', cases=enum_n2('torch', 96), exhaustive=lambda t: t == 'thorough',
+    Facet('torch/N2-group-x-generators', f_n2, kind='enum', cases=enum_n2('torch', 97), exhaustive=lambda t: t == 'thorough',
           shards={'quick': 4, 'thorough': 16}, budget={'quick': 150, 'thorough': 3000}, backend='torch'),
     Facet('torch/random-triples', f_triple, strategy=lambda t: st_triple('torch', 4), examples={'quick': 200, 'thorough': 8000}, shards={'quick': 1, 'thorough': 4}, backend='torch'),
 ]
